@@ -434,6 +434,80 @@ func runC10(p *core.Program, r *core.Report) {
 		}
 		c.ob("AG3", fname, "one descent site", c.fpos(fn), nrec == 1, "exactly one recursive descent is expected")
 	}
+	// ---------------- split conserves the upper half: every entry n.children[m+i] is copied to
+	// h.children[i] for i = 0 .. m-1, unconditionally, and both halves get m = maxChildren/2
+	if fSplit := c.helper(T + "split"); fSplit != nil {
+		fn := fSplit
+		fname := p.FuncName(fn)
+		x := newPathCtx(p)
+		var sib ssa.Value
+		newNodeFn := p.Func("btree.newNode")
+		for _, call := range callsTo(fn, newNodeFn) {
+			sib = call.(ssa.Value)
+			k, ok := path.IntConst(call.Common().Args[0])
+			c.ob("AG4", fname, "sibling holds half the entries", p.InstrPos(call), ok && k == 2, "the new sibling must be created with m = maxChildren/2")
+		}
+		c.ob("AG4", fname, "one sibling", c.fpos(fn), sib != nil, "split must create the sibling with newNode(maxChildren/2)")
+		for _, st := range fieldStores([]*ssa.Function{fn}, "node", "m") {
+			k, ok := path.IntConst(st.Val)
+			base := st.Addr.(*ssa.FieldAddr).X
+			c.ob("AG4", fname, "entry count halved", p.InstrPos(st), ok && k == 2 && base == ssa.Value(fn.Params[1]), "the split node must keep exactly maxChildren/2 entries")
+		}
+		nCopy := 0
+		for _, in := range path.Instrs(fn) {
+			st, ok := in.(*ssa.Store)
+			if !ok {
+				continue
+			}
+			ia, ok := st.Addr.(*ssa.IndexAddr)
+			if !ok {
+				continue
+			}
+			ca, ok := ia.X.(*ssa.FieldAddr)
+			if !ok || !isFieldOf(ca, "node", "children") {
+				continue
+			}
+			nCopy++
+			okDst := ca.X == sib && isForwardInduction(ia.Index)
+			okSrc := false
+			if lu, ok := st.Val.(*ssa.UnOp); ok {
+				if sa, ok := lu.X.(*ssa.IndexAddr); ok {
+					if sc, ok := sa.X.(*ssa.FieldAddr); ok && isFieldOf(sc, "node", "children") && sc.X == ssa.Value(fn.Params[1]) {
+						if bo, ok := sa.Index.(*ssa.BinOp); ok && bo.Op == token.ADD {
+							a, b := bo.X, bo.Y
+							if b != ia.Index {
+								a, b = b, a
+							}
+							okSrc = b == ia.Index && isLoadOfField(a, "node", "m")
+						}
+					}
+				}
+			}
+			c.ob("PV2", fname, "upper half copied entry by entry", p.InstrPos(st), okDst && okSrc, "split must copy n.children[n.m+i] into sibling.children[i] with i scanning forward")
+			// unconditional within the loop: no per-entry decision
+			decs := 0
+			for _, g := range path.Guards(fn, st.Block()) {
+				ib := g.If.Block()
+				if len(path.NaturalLoop(ib)) > 0 {
+					continue // the loop's own continuation test
+				}
+				decs++
+			}
+			c.ob("PV3", fname, "every entry of the upper half is copied", p.InstrPos(st), decs == 0 && loopDepth(fn, st.Block()) == 1, "the copy is conditional: entries (e.g. tombstoned ones) can be dropped, which leaves the sibling short or empty while its first key is still used as the separator")
+			// loop bound i < n.m
+			okB := guardedBy(fn, st.Block(), func(cd path.Cond, truth bool) bool {
+				return normCmp(cd.Op, truth) == "<" && cd.X == ia.Index && x.path(cd.Y) == "n.m"
+			})
+			c.ob("PT5", fname, "copies m entries", p.InstrPos(st), okB, "the copy loop must run while i < n.m")
+		}
+		c.ob("PV2", fname, "one copy site", c.fpos(fn), nCopy == 1, "expected exactly one entry copy in split")
+		for _, b := range fn.Blocks {
+			if rt, ok := b.Instrs[len(b.Instrs)-1].(*ssa.Return); ok {
+				c.ob("PV1", fname, "returns the sibling", p.InstrPos(rt), rt.Results[0] == sib, "split must return the new sibling")
+			}
+		}
+	}
+
 	// ---------------- Get / Size / IsEmpty / Height
 	{
 		fn := fGet
